@@ -82,9 +82,9 @@ Definition emit_page (zoom : Q) (p : epage) : opage :=
   let top := (- scale) *. ep_bt p in                              (* :499 *)
   let right := left +. page_w in
   let bottom := top +. page_h in
-  let m := mk scale 0 0 (- scale) 0 (ep_h p *. scale) in          (* :499 *)
+  let m := mk scale 0 0 (- scale) 0 (ep_h p *. scale) in          (* :508 *)
   mkopage
-    (mkrect (left /. scale) (top /. scale) ((right -. left) /. scale) ((bottom -. top) /. scale))  (* :512 *)
+    (mkrect (left /. scale) (top /. scale) ((right -. left) /. scale) ((bottom -. top) /. scale))  (* :503 *)
     (mk 1 0 0 (-1) 0 (ep_h p *. scale))                           (* :504 *)
     (map (scale_link m) (filter emitted (ep_links p)))            (* :510 *)
     (map (scale_anchor m) (ep_anchors p))                         (* :511 *)
